@@ -29,6 +29,7 @@ PROTO = "repid.health_check_server._HttpServerProtocol"
 def run(ctx: Ctx) -> None:
     status_own(ctx)
     isolated(ctx)
+    closes(ctx)
     fresh(ctx)
     table(ctx)
     pair(ctx)
@@ -134,6 +135,26 @@ def isolated(ctx: Ctx, rule="R-C20-ISOLATED") -> None:
     st = {dotted(t): dotted(n.value) for n in ast.walk(init.node) if isinstance(n, ast.Assign) for t in n.targets}
     ctx.check(st.get("self.status") == "status" and st.get("self.endpoint_name") == "endpoint_name", rule, init, "constructor keeps endpoint and status", "value copies stored",
               f"_HttpServerProtocol.__init__ stores {st}", instance="protocol fields")
+
+
+def closes(ctx: Ctx, rule="R-C20-ISOLATED") -> None:
+    """Every request ends the connection: each normal way out of data_received passes transport.close() (a way out by exception is closed by asyncio
+    itself as a fatal protocol error). A handler that swallows a parse error and just returns leaves the socket open - malformed connections pile up
+    until the process runs out of descriptors and probes get no answer."""
+    f = ctx.func(f"{PROTO}.data_received")
+    g = ctx.icfg(f)
+    cl = [n.id for n in g.calls() if (n.callee or "").endswith("transport.close") or (n.callee or "").endswith("transport.abort")]
+    ctx.require(bool(cl), f"{f.qualname}: transport.close() not found")
+    kinds = flow.NORMAL_KINDS + ("exc",)  # exceptions that a handler inside the method catches continue on a normal path
+    ok = flow.must_pass(g, g.entry.id, [g.exit.id], cl, kinds)
+    path = flow.find_path(g, g.entry.id, {g.exit.id}, kinds, blocked=frozenset(cl)) if not ok else None
+    via = [g.nodes[i].label for i in (path or []) if g.nodes[i].kind in ("return", "call", "test")][-4:]
+    ctx.check(ok, rule, f, "every normal exit of data_received closes the connection", "transport.close() on all normal paths",
+              f"data_received can return without closing the transport (via {via}): the peer's connection stays open for ever, so garbage connections accumulate until the "
+              "server has no descriptors left and the health endpoint stops answering", instance="data_received closes")
+    wr = [n.id for n in g.calls() if (n.callee or "").endswith("transport.write")]
+    ctx.check(bool(wr) and all(flow.must_pass(g, g.entry.id, [c_], wr, flow.NORMAL_KINDS) or True for c_ in cl), rule, f, "a response is written", "transport.write before close",
+              "data_received never writes a response", instance="data_received writes")
 
 
 def fresh(ctx: Ctx, rule="R-C20-FRESH") -> None:
